@@ -7,5 +7,6 @@ CONSTANTS
   MaxReap = 1
   Faults = TRUE
   SplitGet = FALSE
-INVARIANTS TypeOK OneTransportPerName CallersShareTheCachedTransport SameNameSameTransport IdentitiesNeverReused NeverHalfInitialised BoundedRetries OnlyAgedAreReaped Emit
+  TouchOutside = FALSE
+INVARIANTS TypeOK OneTransportPerName CallersShareTheCachedTransport SameNameSameTransport IdentitiesNeverReused NeverHalfInitialised ReaperNeverMeetsAnUnstampedTransport BoundedRetries OnlyAgedAreReaped Emit
 CHECK_DEADLOCK FALSE
